@@ -22,7 +22,12 @@ SHRINKABLE = True
 RULE = ("one font (3-30 glyphs drawn from a structured pool: letters, accented letters, brackets/quotes with their "
         "partners, manual-group punctuation, spaces, ligatures by unicode/name/underscore, dotted suffixes incl. "
         "numbered/upper-case/double/empty ones, .notdef, names starting with . or _, non-ASCII names, odd unicodes "
-        "(0, PUA, unassigned, no-block, shared, several per glyph, AGL-mismatched)) and 4-12 sort calls on it: name lists "
+        "(0, PUA, unassigned, no-block, shared, several per glyph, AGL-mismatched); in a third of the fonts one or two glyphs are "
+        "re-wired over the open/close pairs: a neutral glyph carrying both code points of a pair (its own close relative, "
+        "alone or beside the ordinary partner, first or second on the closing code point), the two swapped, two glyphs "
+        "closing each other, chains, two neutral glyphs on one pair, a non-bracket name carrying a pair) and 4-12 sort "
+        "calls on it (+ 1-3 calls aimed at the container-partner pass when the font has bracket-like glyphs: lists drawn "
+        "mostly from them and their suffixed / ligature variants, under cannedDesign or _containerPartners): name lists "
         "of 0-16 names drawn from the font and from outside it, with duplicates, and 0-3 descriptors over all 10 public "
         "types (+ the 5 private ones in a tenth of the calls), ascending/descending/omitted, pseudo-unicodes "
         "on/off/omitted; non-trivial = a call with >= 2 distinct names whose result order differs from the input "
@@ -88,6 +93,18 @@ ODD_UNI = [0, 0xE000, 0xF8FF, 0x378, 0x2FE0, 0x10FFFF, 0xF0000, 0x1F600, 0x2460,
            0x61, 0x63, 0x41, 0x61, 0x63]
 
 
+# open/close pairs of unicodeTools._openClosePairText within reach of the pool (incl. the hand-made exceptions: several
+# openers for one closer, 0x201F both a closer and an opener)
+PAIRS = [(0x28, 0x29), (0x5B, 0x5D), (0x7B, 0x7D), (0xAB, 0xBB), (0x2018, 0x2019), (0x201C, 0x201D), (0x2039, 0x203A),
+         (0x201A, 0x2019), (0x201B, 0x2019), (0x201E, 0x201D), (0x201F, 0x201D), (0x2E42, 0x201F), (0x301D, 0x301E),
+         (0xFD3F, 0xFD3E), (0xFF08, 0xFF09), (0x2045, 0x2046)]
+PAIR_CODES = set(v for p in PAIRS for v in p)
+OPEN_TO_CLOSE = {}
+for _o, _c in PAIRS:
+    OPEN_TO_CLOSE.setdefault(_o, _c)
+REWIRINGS = ["neutral", "neutral", "neutral", "neutral+", "swapped", "crossed", "chained", "twins", "foreign"]
+
+
 def _agl():
     from fontTools.agl import AGL2UV
     return AGL2UV
@@ -149,7 +166,76 @@ def gen_font(rng):
             elif r < 0.93:
                 unis = [rng.choice(ODD_UNI), rng.choice(ODD_UNI)]
         font.append([nm, unis])
+    if rng.random() < 0.33:
+        rewire_pairs(rng, font)
     return font
+
+
+def rewire_pairs(rng, font):
+    """one glyph for several code points of open/close pairs, as in typewriter-style or monospaced designs: a neutral
+    quote / bracket is its OWN close relative; swapped, crossed (two glyphs closing each other), chained and doubled
+    variants give the other shapes the close-relative relation can take beside 'opener -> another glyph'"""
+    plain = [g for g in font if "." not in g[0] and "_" not in g[0]]
+    if not plain:
+        return None
+    named = [g for g in plain if g[0] in BRACKETS]
+
+    def pick(avoid=()):
+        pool = [g for g in named if g[0] not in avoid] if rng.random() < 0.75 else []
+        pool = pool or [g for g in plain if g[0] not in avoid]
+        return rng.choice(pool) if pool else None
+
+    def pair_of(g, avoid=()):
+        own = [u for u in g[1] if u in OPEN_TO_CLOSE and u not in avoid]
+        if own and rng.random() < 0.8:
+            return own[0], OPEN_TO_CLOSE[own[0]]
+        return rng.choice([p for p in PAIRS if p[0] not in avoid])
+
+    def strip(codes, keep):
+        # the other glyphs lose the code point (else the first glyph of the font that carries it answers the cmap)
+        for g in font:
+            if not any(g is k for k in keep):
+                g[1] = [u for u in g[1] if u not in codes]
+
+    def to_front(g):
+        font.remove(g)
+        font.insert(0, g)
+
+    kind = rng.choice(REWIRINGS)
+    g = pick()
+    if kind == "foreign":
+        others = [x for x in plain if x[0] not in BRACKETS]
+        g = rng.choice(others) if others else g
+    o, c = pair_of(g)
+    keep = [g]
+    if kind in ("neutral", "foreign"):
+        g[1] = [o, c]
+    elif kind == "neutral+":
+        g[1] = rng.choice([[o, c, rng.choice(ODD_UNI)], [o, rng.choice(ODD_UNI), c], [o, c, o], [o, c, c]])
+    elif kind == "swapped":
+        g[1] = [c, o]
+    else:
+        h = pick(avoid=(g[0],))
+        if h is None:
+            g[1] = [o, c]
+        else:
+            keep.append(h)
+            o2, c2 = pair_of(h, avoid=(o,))
+            if kind == "crossed":
+                g[1], h[1] = [o, c2], [o2, c]
+                c = (c, c2)
+            elif kind == "chained":
+                g[1], h[1] = [o], [o2, c]
+            else:  # twins: two neutral glyphs on one pair, the first of the font closes both
+                g[1], h[1] = [o, c], [o, c]
+    codes = set(c) if isinstance(c, tuple) else {c}
+    r = rng.random()
+    if r < 0.45:
+        strip(codes, keep)
+    elif r < 0.7:
+        for k in reversed(keep):
+            to_front(k)
+    return kind
 
 
 def gen_names(rng, font):
@@ -190,9 +276,49 @@ def gen_descs(rng):
     return descs
 
 
+def _stem(name):
+    # what pseudoUnicodeForGlyphName falls back to: the part before the first dot, then before the first underscore
+    return name.split(".")[0].split("_")[0]
+
+
+def bracket_like(font):
+    """names of the font that can have or be a close relative: a glyph carrying a code point of an open/close pair,
+    and the suffixed / ligature names whose pseudo-unicode is taken from such a glyph"""
+    carriers = set(g[0] for g in font if any(u in PAIR_CODES for u in g[1]))
+    return [g[0] for g in font if g[0] in carriers or (g[0][:1] not in "._" and _stem(g[0]) in carriers)]
+
+
+def gen_partner_call(rng, font, focus):
+    """a call aimed at the container-partner pass: mostly bracket-like names, a few others around them"""
+    fnames = [g[0] for g in font]
+    names = []
+    for _ in range(rng.choice([1, 1, 2, 2, 3, 4, 5, 6, 8])):
+        r = rng.random()
+        if r < 0.6:
+            names.append(rng.choice(focus))
+        elif r < 0.88:
+            names.append(rng.choice(fnames))
+        elif r < 0.95:
+            names.append(_stem(rng.choice(focus)) + rng.choice([".", "_"]) + rng.choice(SUFFIXES + ["a", "parenright"]))
+        else:
+            names.append(rng.choice(LETTERS + BRACKETS))
+    if rng.random() < 0.35:
+        for _ in range(rng.randint(1, 2)):
+            names.insert(rng.randrange(len(names) + 1), rng.choice(names))
+    t = rng.choice(["cannedDesign", "cannedDesign", "cannedDesign", "_containerPartners"])
+    descs = [[t, rng.choice([None, True, False]), rng.choice([None, False, True, True])]]
+    if t == "cannedDesign" and rng.random() < 0.25:
+        descs.insert(rng.randrange(2), [rng.choice(PUBLIC), rng.choice([None, True, False]), rng.choice([None, False, True])])
+    return dict(names=names, descs=descs)
+
+
 def gen_case(rng):
     font = gen_font(rng)
     ops = [dict(names=gen_names(rng, font), descs=gen_descs(rng)) for _ in range(rng.randint(4, 12))]
+    focus = bracket_like(font)
+    if focus and rng.random() < 0.6:
+        for _ in range(rng.randint(1, 3)):
+            ops.insert(rng.randrange(len(ops) + 1), gen_partner_call(rng, font, focus))
     return dict(font=font, from_disk=rng.random() < 0.08, ops=ops)
 
 
@@ -419,6 +545,20 @@ def _run_impl(case, tmp):
     stats = {"cases": 1, "font.glyphs": len(case["font"]), "font.from_disk": int(bool(case.get("from_disk")))}
     nontrivial = False
     fkeys = set(font.keys())
+    # shapes of the close-relative relation in this font, read off the real look-ups
+    close = {}
+    for flag in (False, True):
+        for n in sorted(fkeys):
+            c = ud.closeRelativeForGlyphName(n, flag)
+            if c is not None:
+                close[(n, flag)] = c
+    selfrel = set(k for k, c in close.items() if c == k[0])
+    cyclic = set(k for k, c in close.items() if c != k[0] and close.get((c, k[1])) == k[0])
+    chained = set(k for k, c in close.items() if c != k[0] and (c, k[1]) in close and close[(c, k[1])] not in (c, k[0]))
+    for key, group in (("font.self_close_relative", selfrel), ("font.two_glyphs_close_each_other", cyclic),
+                       ("font.close_relative_chain", chained)):
+        if group:
+            stats[key] = 1
     for i, op in enumerate(case["ops"]):
         names = list(op["names"])
         names0 = list(names)
@@ -466,6 +606,23 @@ def _run_impl(case, tmp):
             stats["reordered"] = stats.get("reordered", 0) + 1
             if len(set(names0)) >= 2 and public:
                 nontrivial = True
+        pflags = set(_flag(d[2], False) for d in op["descs"] if d[0] in ("cannedDesign", "_containerPartners"))
+        if pflags:
+            stats["partner_pass"] = stats.get("partner_pass", 0) + 1
+            for key, group in (("self_close_relative", selfrel), ("two_glyphs_close_each_other", cyclic),
+                               ("close_relative_chain", chained)):
+                hit = [n for n in names0 if any((n, f) in group for f in pflags)]
+                if hit:
+                    stats["partner_pass.with." + key] = stats.get("partner_pass.with." + key, 0) + 1
+                    if key == "self_close_relative":
+                        where = set()
+                        for n in set(hit):
+                            where.add("repeated" if names0.count(n) > 1 else "last" if names0[-1] == n else "before_others")
+                        for w in where:
+                            k2 = "partner_pass.self_close_relative." + w
+                            stats[k2] = stats.get(k2, 0) + 1
+            if any(close.get((n, f)) in names0 and close.get((n, f)) != n for n in names0 for f in pflags):
+                stats["partner_pass.with.partner_waiting"] = stats.get("partner_pass.with.partner_waiting", 0) + 1
         partners = [ud.closeRelativeForGlyphName(n, True) for n in set(names0)]
         if any(p is not None and p not in names0 for p in partners):
             stats["with.partner_in_font_not_in_list"] = stats.get("with.partner_in_font_not_in_list", 0) + 1
